@@ -43,6 +43,11 @@ func (c10) Gen(r *rand.Rand, tier string, run int) *core.Case {
 	c.Params["transport"] = []int{0, 0, 1, 2, 3, 4, 5}[r.IntN(7)]
 	c.Params["concurrent_install"] = r.IntN(2)
 	c.Params["fillers"] = []int{0, 0, 0, 9, 10, 11}[r.IntN(6)]
+	if r.IntN(60) == 0 {
+		// a table that has grown beyond a thousand entries (a busy
+		// connection: that many calls or subscriptions at once)
+		c.Params["fillers"] = []int{1023, 1030, 1100, 2050}[r.IntN(4)]
+	}
 	// ... and that go away while the traffic flows and other handlers come
 	if c.Params["fillers"] > 0 && r.IntN(2) == 0 {
 		c.Params["fillers_async"] = 1
@@ -255,6 +260,7 @@ func (c10) Run(c *core.Case, env *core.Env) {
 		// again once the real ones are in: those then live in the part of
 		// the table that was grown, above a run of free slots
 		var fillers []int
+		zzsim.Calm(c.P("fillers", 0) > 100)
 		for k := 0; k < c.P("fillers", 0); k++ {
 			// (their close callback takes a moment, as an application's may)
 			pause := k % 4
@@ -264,6 +270,7 @@ func (c10) Run(c *core.Case, env *core.Env) {
 				}
 			}))
 		}
+		zzsim.Calm(false)
 		if c.P("fillers_async", 0) == 1 {
 			fillerIDs = fillers
 		} else {
@@ -311,6 +318,16 @@ func (c10) Run(c *core.Case, env *core.Env) {
 		}
 		iwg.Wait()
 		seen := map[int]int{}
+		for k, id := range fillers {
+			// (the fillers are still there: they go once this function returns)
+			if prev, dup := seen[id]; dup {
+				env.Violate("handler-id-given-twice", "handlers %d and %d of a table of %d, both registered and live, were given the same identifier %d", -1-prev, k, len(fillers), id)
+			}
+			seen[id] = -1 - k
+		}
+		if len(fillers) > 1000 {
+			env.Probe("tables-of-more-than-a-thousand-handlers")
+		}
 		for k, id := range ids {
 			if prev, dup := seen[id]; dup {
 				env.Violate("handler-id-given-twice", "handlers %d and %d, both registered and live, were given the same identifier %d", prev, k, id)
